@@ -1,7 +1,7 @@
 """C26 — response rate limiting follows its token-bucket rule over time (src/server/rrl.rs)."""
 
 NS = 10 ** 9
-FRAC_MAX = 850_000_000          # cumulative fractional part kept below this (impl_c26.rs: REAL_TIME_MARGIN)
+FRAC_MAX = 100_000_000          # cumulative fractional part kept below this (impl_c26.rs: REAL_TIME_MARGIN = 1 s - this - slack)
 BIG_SECS = [2 ** 30, 2 ** 31 - 1, 2 ** 31, 2 ** 31 + 1, 2 ** 32 - 1, 2 ** 32, 2 ** 32 + 1, 10 ** 9,
             1431655766, 1431655765, 2 ** 33, 3 * 2 ** 32 + 5, 2 ** 40, 31_536_000, 10 * 31_536_000]
 KINDS = ["na", "nb", "nc", "nA", "da", "wq", "wzz", "xq", "xab", "rq", "f"]
@@ -68,7 +68,7 @@ def gen_gaps(rng, rate, window):
 
 
 def gen(rng, tier):
-    n = 12000 if tier == "quick" else 250000
+    n = 8000 if tier == "quick" else 250000
     # the DESIGN witness and the truncation witness first
     yield "3 3 3 2 1 1 xq 1 0,0,0,0,0,0,0,1431655766000000000,0,0,0,0,0,0,0,0"
     yield "4 4 4 1 0 1 na 0 0,0,0,0,0,1073741824000000000,0,0,0,0,0"
@@ -82,7 +82,63 @@ def gen(rng, tier):
         kind = rng.choice(KINDS)
         rate = {"n": ne, "d": ne, "w": ne, "x": nx}.get(kind[0], er)
         gaps = gen_gaps(rng, max(rate, 1), max(win, 1))
+        if size > 1000:
+            # the aging hook walks the whole table: keep the number of idle periods (and with it the real time) small
+            seen = 0
+            for i, g in enumerate(gaps):
+                if g:
+                    seen += 1
+                    if seen > 25:
+                        gaps = gaps[:i]
+                        break
         yield f"{ne} {nx} {er} {win} {slip} {size} {kind} {rng.choice([0, 1])} {','.join(map(str, gaps))}"
+
+
+MIX_KINDS = ["na", "nA", "nb", "da", "wq", "wzz", "xq", "xab", "rq", "f"]
+EXEMPT = ["oa", "m"]
+
+
+def gen_mixed(rng, tier):
+    """Several streams through ONE slot (size 1: every other stream evicts), or one stream in a
+    table of any size, with exempt traffic (TCP, NOTIFY, suppressed responses) in between.
+    Gaps are whole seconds, so every pairwise distance is (evictions restart the bucket's clock)."""
+    n = 2000 if tier == "quick" else 60000
+    for _ in range(n):
+        ne, nx, er, win = gen_params(rng)
+        if ne * win > 40 or ne == 0 or nx == 0 or er == 0 or win == 0:
+            ne = nx = er = rng.randint(1, 4); win = rng.randint(1, 3)
+        slip = rng.choice([0, 1, 1, 2])
+        multi = rng.random() < 0.7
+        size = 1 if multi else rng.choice([1, 7, 65537])
+        streams = rng.sample(MIX_KINDS, rng.randint(2, 3)) if multi else [rng.choice(MIX_KINDS)]
+        reqs = []
+        cur = rng.choice(streams)
+        for i in range(rng.randint(4, 40)):
+            r = rng.random()
+            if r < 0.15:
+                k, tr = rng.choice(EXEMPT + [cur]), rng.choice(["u", "t", "t"])
+                if k == cur and tr == "u":
+                    tr = "t"
+            else:
+                if r < 0.35:
+                    cur = rng.choice(streams)
+                k, tr = cur, "u"
+            g = rng.choice([0, 0, 0, 0, 0, 1, 1, 2, win, win + 1, rng.choice(BIG_SECS)]) * NS if i else 0
+            reqs.append(f"{k}:{tr}:{g}")
+        yield f"{ne} {nx} {er} {win} {slip} {size} {rng.choice([0, 1])} {','.join(reqs)}"
+
+
+def nontrivial_mixed(case, impl, model, oracle):
+    # something was limited and at least two different kinds of request occur
+    f = case.split()
+    return impl.startswith("ok") and any(ch in "TDL" for ch in letters(impl)) and len({r.split(":")[0] for r in f[7].split(",")}) >= 2
+
+
+def classify_mixed(case, impl, model, oracle):
+    if not impl.startswith("ok"):
+        return impl.split("(")[0]
+    f = case.split()
+    return ("one-slot" if f[5] == "1" else "many-slots") + ":" + ("limited" if any(ch in "TDL" for ch in letters(impl)) else "never-limited")
 
 
 def letters(line):
@@ -108,7 +164,7 @@ def classify(case, impl, model, oracle):
 CHECK = {
     "property": "C26",
     "props": "Props/C26.v",
-    "theorems": ["c26_params_wf", "c26_refines", "c26_step", "c26_new_wf", "c26_count_bound", "c26_outcomes",
+    "theorems": ["c26_params_wf", "c26_refines", "c26_refines_mixed", "c26_step", "c26_new_wf", "c26_count_bound", "c26_outcomes",
                  "c26_slip0", "c26_slip1", "c26_slip_shape", "c26_refines_refuted_prefix"],
     "allowed_axioms": [],
     "suites": [{
@@ -122,6 +178,15 @@ CHECK = {
                  "1-6 phases of (idle period, burst): idle periods 0, sub-second, whole seconds around the window, 1 s +- 1 ns, "
                  "2^30..2^40 s incl. 2^31+-1, 2^32+-1, 1431655766, 10^9 s, once 2^48..2^61 s, applied with Server::verif_rrl_age; "
                  "non-trivial = the stream was limited and later sent again (a refill was observed); distinct = distinct case line"),
+    }, {
+        "name": "rrlmix",
+        "impl_bin": "impl_c26", "extract": "Extract/ExC26.v", "driver": "run_c26.ml",
+        "gen": gen_mixed, "nontrivial": nontrivial_mixed, "classify": classify_mixed,
+        "exhaustive": {"quick": False, "thorough": False},
+        "rule": ("seeded mixed histories from one source: 2-3 streams sharing the single slot of a size-1 table (every change of "
+                 "stream evicts and restarts the bucket), or one stream in a table of size 1/7/65537, interleaved with exempt traffic "
+                 "(TCP, NOTIFY opcode, suppressed responses); whole-second idle periods 0/1/2/window/window+1/2^30..2^40 s; the oracle "
+                 "is the specification's bucket per stream with eviction; non-trivial = something was limited and >= 2 kinds of request"),
     }],
     "trusted_base": [
         "Coq 8.16.1 kernel (vm_compute only in the closed witnesses/examples)",
@@ -132,8 +197,8 @@ CHECK = {
         "that stands in for the unmodelled query.rs), line diff in tools/qv.py",
         "hook Server::verif_rrl_age (cfg quandary_verif): shifting last_refill back by d is taken to be equivalent to d of idle time",
         "tools/gen/rrl.py re-extracts the RrlParams defaults, prefix bounds, NOERROR/NXDOMAIN/QUERY codes",
-        "time: real time elapsed inside one case (< 100 ms, enforced by the runner) is absorbed by keeping every cumulative "
-        "fractional second below 0.85 s; the random slip decision for slip >= 2 is compared only as 'limited'",
+        "time: real time elapsed inside one case (< 800 ms, enforced by the runner) is absorbed by keeping every cumulative "
+        "fractional second below 0.1 s; the random slip decision for slip >= 2 is compared only as 'limited'",
         "not modelled: Mutex poisoning, allocation failure, the octets of the response (only counts/flags of clear_rrs/set_tc)",
     ],
     "assumptions": ["wf_params: established by RrlParams::new (c26_params_wf)",
